@@ -242,7 +242,7 @@ func zvC27Seeds() []zvC27Seed {
 
 type zvC27Case struct {
 	Seed    string `json:"seed"`
-	Mut     string `json:"mutation"` // none | field | pair | byte | bit | trunc
+	Mut     string `json:"mutation"` // none | field | tlvshape | pair | byte | bit | trunc
 	Field   string `json:"field,omitempty"`
 	MsgType int    `json:"in_msg_type"` // BMP type of the seed message that contains the mutated position (-1: n/a)
 	Off     int    `json:"off"`
@@ -308,6 +308,40 @@ func zvC27Enumerate(thorough bool, emit func(c *zvC27Case, stream []byte)) {
 				c := mk("field")
 				c.Field, c.Off, c.Val, c.MsgType = f.Name, f.Off, v, int(z.Marks[f.Msg].Type)
 				c.Note = fmt.Sprintf("true value %d", f.True)
+				emit(c, b)
+			}
+		}
+		// every BMP-level TLV re-shaped to length 0/1/2 with the message kept well-formed
+		// (value cut or padded, enclosing message length adjusted): empty and short TLVs
+		for _, f := range z.Fields {
+			if f.Name != "tlv.len" && f.Name != "stat.len" {
+				continue
+			}
+			var ml *zvBmpField
+			for i := range z.Fields {
+				if z.Fields[i].Name == "bmp.len" && z.Fields[i].Msg == f.Msg {
+					ml = &z.Fields[i]
+				}
+			}
+			for _, nl := range []uint64{0, 1, 2} {
+				if nl == f.True || ml == nil {
+					continue
+				}
+				valStart := f.Off + f.W
+				b := append([]byte(nil), z.B[:valStart]...)
+				for i := uint64(0); i < nl; i++ {
+					if i < f.True {
+						b = append(b, z.B[valStart+int(i)])
+					} else {
+						b = append(b, 0)
+					}
+				}
+				b = append(b, z.B[valStart+int(f.True):]...)
+				zvBmpPut(b, f.Off, f.W, nl)
+				zvBmpPut(b, ml.Off, ml.W, ml.True+nl-f.True)
+				c := mk("tlvshape")
+				c.Field, c.Off, c.Val, c.MsgType = f.Name, f.Off, nl, int(z.Marks[f.Msg].Type)
+				c.Note = fmt.Sprintf("true length %d; value resized, message length adjusted", f.True)
 				emit(c, b)
 			}
 		}
@@ -818,7 +852,7 @@ func TestVerifC27(t *testing.T) {
 	zvBmpQuiet()
 	r.Rule("seed conversations (initiation, peer-up v4/v6 with capabilities, route monitoring pre/post policy incl. add-path and MP_REACH, statistics, route mirroring, " +
 		"peer-down reasons 1-5, termination; route monitoring wrapping OPEN/KEEPALIVE/NOTIFICATION/ROUTE-REFRESH/garbage; 144 peer-up AS combinations; 90 termination TLV shapes) x " +
-		"{unchanged, every truncation, every length/count field x boundary set, every offset x {0,1,0x7f,0x80,0xff}; thorough: every bit flip, all pairs of length fields of one message}; " +
+		"{unchanged, every truncation, every length/count field x boundary set, every BMP TLV re-shaped to length 0/1/2, every offset x {0,1,0x7f,0x80,0xff}; thorough: every bit flip, all pairs of length fields of one message}; " +
 		"non-trivial = byte streams that are pairwise distinct")
 	r.Require(zvC27Required...)
 	journal := os.Getenv("VERIF_OUT") + ".journal"
@@ -875,7 +909,7 @@ func TestVerifC27(t *testing.T) {
 			r.Nontrivial(1)
 		}
 		switch c.Mut {
-		case "field", "pair":
+		case "field", "pair", "tlvshape":
 			r.Count("field_cases", 1)
 		case "byte", "bit":
 			r.Count("byte_cases", 1)
